@@ -15,3 +15,4 @@ open Qvnt
 #print axioms C14_code_with_state
 #print axioms C14_code_shrink
 #print axioms C14_code_tensor
+#print axioms C14_code_grow
